@@ -52,7 +52,7 @@ ANCHORS = [("rig.machine_control.machine_controller",
              "start_signal": "self.send_signal(\"start\", app_id)"})]
 SHARDS = {"quick": 16, "thorough": 64}
 CLASSES = ["clean", "one_miss", "block_miss", "all_but_last", "always_miss",
-           "prewait", "multi", "random", "big"]
+           "prewait", "multi", "random", "big", "blocks"]
 KF_BIG = "binary-needs-more-than-255-blocks"
 KF_COUNT = "count-mode-foreign-waiter-masks-miss"
 KF_PRE = "requested-core-already-waiting-masks-miss"
@@ -60,11 +60,13 @@ KF_PRE = "requested-core-already-waiting-masks-miss"
 
 def plan(tier):
     n = 600 if tier == "quick" else 16000
-    return [(c, n if c != "big" else n // 6) for c in CLASSES]
+    return [(c, n // 6 if c in ("big", "blocks") else n) for c in CLASSES]
 
 
 def gen(cls, idx, rng, tier):
     w, h = rng.choice([(1, 1), (2, 2), (3, 3), (4, 2), (4, 4)])
+    if cls == "blocks":
+        w, h = rng.choice([(8, 4), (4, 8), (8, 8)])
     dead = []
     if w * h > 2 and rng.random() < .3:
         dead = [(rng.randrange(w), rng.randrange(h))]
@@ -87,7 +89,26 @@ def gen(cls, idx, rng, tier):
                              300])
             size = nb * buf - rng.choice([0, 4, buf - 4])
         targets = {}
-        for xy in rng.sample(chips, rng.randint(1, min(len(chips), 5))):
+        if cls == "blocks" and b == 0:
+            # one core set on every chip of an aligned 4x4 block (which the
+            # loader names with ONE region word) and the same core set on a
+            # few chips of other blocks, their corner chips first
+            cs = sorted(rng.sample(range(1, 18), rng.randint(1, 3)))
+            bx, by = rng.choice([(x, y) for x in range(0, w, 4)
+                                 for y in range(0, h, 4)])
+            block = [(x, y) for x in range(bx, bx + 4)
+                     for y in range(by, by + 4)]
+            corners = [(x, y) for x in range(0, w, 4) for y in range(0, h, 4)
+                       if (x, y) != (bx, by)]
+            extra = rng.sample(corners, rng.randint(1, len(corners))) + \
+                rng.sample([c for c in chips if c not in block],
+                           rng.randint(0, 3))
+            for xy in block + extra:
+                if xy in chips:
+                    targets[xy] = list(cs)
+                    used.setdefault(xy, set()).update(cs)
+        for xy in ([] if targets else
+                   rng.sample(chips, rng.randint(1, min(len(chips), 5)))):
             free = [c for c in range(1, 18) if c not in used.get(xy, set())]
             cs = set(rng.sample(free, rng.randint(1, min(4, len(free)))))
             used.setdefault(xy, set()).update(cs)
